@@ -447,18 +447,23 @@ def shownPairs (cfg : Cfg) (inp : Input) : List (Finding × Item) :=
 def findingsOf (r : Report.Report) : List Finding :=
   (r.kex ++ r.key ++ r.enc ++ r.mac).flatMap (fun l => l.notes.map (findingOf l))
 
-/-- removal of colour escapes: `ESC [ 0 ; d d m` and `ESC [ 0 m` -/
-def stripAnsi : Str → Str
-  | [] => []
-  | c :: rest =>
-    if c = esc then
-      match h : rest with
-      | '[' :: '0' :: ';' :: _ :: _ :: 'm' :: r => stripAnsi r
-      | '[' :: '0' :: 'm' :: r => stripAnsi r
-      | _ => c :: stripAnsi rest
-    else c :: stripAnsi rest
-termination_by l => l.length
-decreasing_by all_goals (subst_vars; simp; try omega)
+/-- length of a colour escape at the head of the text: `ESC [ 0 ; d d m` (7), `ESC [ 0 m` (4), none (0) -/
+def escLen : Str → Nat
+  | c :: '[' :: '0' :: ';' :: d1 :: d2 :: 'm' :: _ => if c = esc ∧ Text.isDigit d1 = true ∧ Text.isDigit d2 = true then 7 else 0
+  | c :: '[' :: '0' :: 'm' :: _ => if c = esc then 4 else 0
+  | _ => 0
+
+/-- `k` = characters of an escape still to skip -/
+def stripGo : Nat → Str → Str
+  | _, [] => []
+  | k + 1, _ :: r => stripGo k r
+  | 0, c :: r =>
+    match escLen (c :: r) with
+    | 0 => c :: stripGo 0 r
+    | n + 1 => stripGo n r
+
+/-- removal of colour escapes (`re.sub('\x1b\\[0(;[0-9][0-9])?m', '', t)`) -/
+def stripAnsi (t : Str) : Str := stripGo 0 t
 
 end Output
 end SshAudit
